@@ -725,6 +725,14 @@ class SVG:
         """
         Removes groups where possible, applies transforms, applies clip paths.
         """
+        # opacity on the root applies to the document as a whole, like a group's:
+        # hand it to a group so it is flattened or retained by the usual rules
+        root_opacity = self.svg_root.attrib.pop("opacity", None)
+        if root_opacity is not None:
+            group = etree.Element(f"{{{svgns()}}}g", {"opacity": root_opacity})
+            group.extend(list(self.svg_root))
+            self.svg_root.append(group)
+
         # Reversed: we want leaves first
         to_process = reversed(tuple(c for c in self.breadth_first()))
 
